@@ -1,7 +1,7 @@
 """C10 — AXI bursts are expanded and resized according to the AXI address rules."""
 import time
 import c10lib
-from c10lib import (Job, run_jobs, B2BInst, ConvArith, ConvE2E, LanePathInst, SideInst, FIXED, INCR, WRAP, RESERVED,
+from c10lib import (Job, run_jobs, B2BInst, ConvArith, ConvE2E, LanePathInst, SideInst, B2BUserE2E, FIXED, INCR, WRAP, RESERVED,
                     spec_addr, legal, burst_bytes, eff_burst)
 from explore import Disagreement, generic_search, search_failing_input
 
@@ -103,10 +103,30 @@ def side_jobs(quick):
     return J
 
 
+B2B_USERS = (("axi2axilite", 32), ("axi2wishbone", 32), ("axi2axilite", 64))
+B2B_USERS_THOROUGH = (("axi2wishbone", 64), ("axi2axilite", 128), ("axi2axilite", 8))
+
+
+def user_jobs(quick):
+    """Every in-tree instantiation of AXIBurst2Beat (AXI2AXILite; AXI2Wishbone through it) in front of a real SRAM:
+    capability set vs Lean `userCaps`, FIXED/INCR/WRAP bursts of all legal lengths and sizes end to end."""
+    return [Job("E", lambda u=u, dw=dw: B2BUserE2E(u, dw), label="%s(dw=%d)+SRAM/burst-types" % (u, dw))
+            for (u, dw) in B2B_USERS + (() if quick else B2B_USERS_THOROUGH)]
+
+
+def user_by_name(name):
+    for (u, dw) in B2B_USERS + B2B_USERS_THOROUGH:
+        e = B2BUserE2E(u, dw)
+        if e.name == name:
+            return e
+    return None
+
+
 def jobs(tier):
     quick = tier == "quick"
     # longest jobs first (the pool hands them out in order)
-    return b2b_box_jobs(quick) + conv_jobs(quick) + b2b_random_jobs(quick) + lane_jobs(quick) + side_jobs(quick)
+    return (b2b_box_jobs(quick) + conv_jobs(quick) + b2b_random_jobs(quick) + lane_jobs(quick) + side_jobs(quick) +
+            user_jobs(quick))
 
 
 # (kind, dw_from, dw_to, options).  Ratios 2/4/8 in both directions, widths up to 1024 bits, instances built through
@@ -311,7 +331,7 @@ def search(ctx, disagreements, proof_info):
     # 1. converters: the byte-set oracle fired during the arithmetic differential
     for d in disagreements:
         if isinstance(d, dict) and d.get("kind", "").startswith("monitor:") and (
-                "request" in d or d.get("passthrough") or "e2e" in d):
+                "request" in d or d.get("passthrough") or "e2e" in d or "b2buser" in d):
             return d
     # 1b. converters whose arithmetic disagrees with the model: sweep the byte-preserving region with the oracle
     import random
@@ -455,6 +475,12 @@ def replay(ctx, payload):
         return 0
     fi = payload.get("failing_input") or {}
     name = fi.get("instance", "")
+    if "b2buser" in fi:           # burst(s) through a user of AXIBurst2Beat into its SRAM
+        e = user_by_name(name)
+        if e is None:
+            print("instance %r not found" % name)
+            return 2
+        return verdict(e.run_history(fi.get("history") or [fi]), "burst")
     if "e2e" in fi:               # end-to-end burst(s) through a converter
         e = e2e_by_name(name)
         if e is None:
